@@ -186,7 +186,35 @@ fn close_case(rng: &mut Rng, idx: u64, rec: &mut Rec) {
     let http10 = rng.chance(1, 2);
     let status = *rng.pick(&[200u16, 404, 500, 201]);
     let head = format!("HTTP/1.{} {} X\r\nServer: s\r\n\r\n", if http10 { 0 } else { 1 }, status);
-    let mut f = super::c05::recv_flow(*rng.pick(&["GET", "POST"]));
+    // one case in five: the body arrives on a flow that already has every other reason to close
+    // (HTTP/1.0 request, Connection: close on both sides, Expect refused by this very response)
+    let loaded = rng.chance(1, 5);
+    let head = if loaded { format!("HTTP/1.{} {} X\r\nServer: s\r\nConnection: close\r\n\r\n", if http10 { 0 } else { 1 }, status) } else { head };
+    let mut f = if loaded {
+        use ureq_proto::client::flow::{Await100Result, SendRequestResult};
+        rec.cov("close/with-four-other-close-reasons");
+        let mut cfg = ReqCfg::new("POST", "http://h.test/x").h("connection", b"close").h("expect", b"100-continue");
+        cfg.ver = Ver::V10;
+        let made = (|| -> Option<_> {
+            let mut s = build_flow(&cfg).ok()?.proceed();
+            write_head_big(&mut s).ok()?;
+            let mut a = match s.proceed().ok()?? {
+                SendRequestResult::Await100(a) => a,
+                _ => return None,
+            };
+            a.try_read_100(head.as_bytes()).ok()?;
+            match a.proceed().ok()? {
+                Await100Result::RecvResponse(r) => Some(r),
+                _ => None,
+            }
+        })();
+        match made {
+            Some(f) => f,
+            None => return rec.fail("C08/setup", "refused-expect route".into()),
+        }
+    } else {
+        super::c05::recv_flow(*rng.pick(&["GET", "POST"]))
+    };
     match f.try_response(head.as_bytes()) {
         Ok((k, Some(_))) if k == head.len() => {}
         other => return rec.fail("C08/setup", format!("{:?}", other.map(|v| v.0))),
@@ -311,7 +339,7 @@ impl Property for P {
     fn floors(&self, _tier: Tier) -> Vec<(String, u64)> {
         [
             "length/window<left/*", "length/window=left/*", "length/window>left/out>=window", "length/window>left/out<window", "length/window>left/out=0", "length/read-after-complete", "close/out=0", "close/out<window", "close/out>=window",
-            "close/proceed-early", "close/proceed-at-end", "length/status-3xx", "length/behind-a-late-100", "length/status-other/http10-with-ignored-chunked",
+            "close/proceed-early", "close/proceed-at-end", "close/with-four-other-close-reasons", "length/status-3xx", "length/behind-a-late-100", "length/status-other/http10-with-ignored-chunked",
         ]
         .iter()
         .map(|k| (k.to_string(), 50))
